@@ -41,15 +41,15 @@ PROPERTY = "C22"
 LEVEL = "translation_validation"
 JOB_TIMEOUT = {"quick": 280, "thorough": 1500}
 MEM_BASE = 0x100000          # address of the linear memory in the IR-level model
-SYM_LO = list(range(0, 8))   # memory bytes that are symbolic inputs (start of memory)
-SYM_HI = list(range(65528, 65536))   # ... and the last 8 bytes of the first page
+SYM_LO = list(range(0, 4))   # memory bytes that are symbolic inputs (start of memory)
+SYM_HI = list(range(65532, 65536))   # ... and the last 4 bytes of the first page
 MAX_EXT = 3
 
 BOUNDS = {
     "quick": {"modules": "corpus/wasmprogs.py names('quick', seed): 66 numeric instruction modules, 37 comparison-consumer modules, "
                          "60 generated + 13 fixed control-flow templates (depth <= 3), 7 locals/globals, 9 call, 1 call_indirect, "
                          "10 misc, ~75 memory modules; routes: py for all, ir for all but call_indirect",
-              "symbolic": "all arguments (full i32 / i64 range), every mutable global, 16 bytes of linear memory (first 8 and last 8 of "
+              "symbolic": "all arguments (full i32 / i64 range), every mutable global, 8 bytes of linear memory (first 4 and last 4 of "
                           "page 0) on top of the data segment, the probe address for memory equality (0..65535), 3 host-call results",
               "unwinding": "400 wasm steps / 1500 IR instructions per execution, call depth 3; longer paths are cut and counted"},
     "thorough": {"modules": "same families with 600 generated control-flow templates, all comparison contexts, 7 offsets per memory access",
@@ -139,7 +139,9 @@ class _IrSem(irsem.IrSem):
     structurally equal products / quotients"""
 
     def load(self, addr, nbytes):
-        return z3.simplify(irsem.IrSem.load(self, addr, nbytes))
+        self.ub.append(z3.Not(self._valid(addr, nbytes)))
+        bs = [_wasmrt.resolve_select(self.mem, addr + k) for k in range(nbytes)]
+        return z3.simplify(z3.Concat(*reversed(bs))) if nbytes > 1 else bs[0]
 
 
 class WasmHarness(Harness):
